@@ -471,9 +471,10 @@ def gen_data(rng, fw, lib_data, rec=None):
     transfers = {}
     for _ in range(rng.choice([0, 0, 1, 2])):
         transfers[U.gen_name(rng, used, lo=2, hi=8, plain=(rng.random() < 0.5))] = {"label": U.gen_name(rng, used, lo=3, hi=14), "type": rng.choice([pt for pt in pop_types if pt in lib_by_type])}
-    years = rng.choice(["dense", "sparse", "single", "fractional"])
+    years = rng.choice(["dense", "sparse", "single", "fractional", "monthly"])
     start = float(rng.choice([2000, 2010, 2014, 2016]))
-    tvec = {"dense": [start + i for i in range(rng.randint(3, 9))], "sparse": sorted({start + rng.randint(0, 15) for _ in range(4)}), "single": [start], "fractional": [start + 0.5 * i for i in range(5)]}[years]
+    tvec = {"dense": [start + i for i in range(rng.randint(3, 9))], "sparse": sorted({start + rng.randint(0, 15) for _ in range(4)}), "single": [start], "fractional": [start + 0.5 * i for i in range(5)],
+            "monthly": [start + i / 12 for i in range(6)]}[years]   # years that need all 16 significant digits
     data = at.ProjectData.new(fw, np.array(tvec, dtype=float), pops=pops, transfers=transfers)
     scale = {code: rng.choice([1.0, 1.0, 0.5, 2.0, 1.37]) for code in pops}
     for name, tdve in data.tdve.items():
@@ -503,7 +504,9 @@ def gen_data(rng, fw, lib_data, rec=None):
                     new.insert(t, val(t))
                 if rng.random() < 0.2:
                     new.insert(None, val(None))  # assumption next to time values (ignored by the model, but content)
-            if rng.random() < 0.3 and tdve.write_uncertainty is not False:
+            # an uncertainty can be entered for every quantity except the duration of a timed parameter (decided from the FRAMEWORK, not from the flag ProjectData.new happened to set)
+            is_timed_par = name in fw.pars.index and fw.pars.at[name, "timed"] == "y"
+            if rng.random() < 0.3 and not is_timed_par:
                 new.sigma = rng.choice([0.0, 0.1, 0.05])
             tdve.ts[code] = new
             if rng.random() < 0.2:
@@ -782,6 +785,10 @@ def apply_op(st: State, op: str, rng):
         if not cands:
             raise Skip()
         pop = rng.choice(cands)
+        # a population that is only on the receiving side of an interaction between two population types: it must leave that table as well
+        cross = [p_ for p_ in cands if any(p_ in i_.to_pops and p_ not in i_.from_pops for i_ in list(st.data.transfers) + list(st.data.interpops))]
+        if cross and rng.random() < 0.7:
+            pop = rng.choice(sorted(cross))
         try:
             st.data.remove_pop(pop)
         except ValueError as ex:
